@@ -186,6 +186,7 @@ func checkC05(c *Ctx, r *Report) {
 
 	// termination
 	r.Rule("loops-terminate", "every loop in the analysed functions matches a termination template (counting loop, shrinking slice, or context-bounded exchange)", 12)
+	e.resolveLoops()
 	var lkeys []string
 	for k := range e.loopsSeen {
 		lkeys = append(lkeys, k)
